@@ -1,21 +1,29 @@
 /-
   C01.3 — the compiler and the backtracking VM agree with the reference semantics on a
-  fragment of jq with closures, recursion and error handling (Model/MiniVM.lean): identity,
-  constants, pipe, comma, `.[]`, `.name`, `empty`, `[q]`, `error`, `try b`, `try b catch h`,
-  `if c then a else b end`, `l // r`, `$x`, `src as $x | body`,
-  `reduce src as $x (init; upd)`, `foreach src as $x (init; upd; ext)`, one-filter-parameter functions `def f(g): …` with arbitrary recursion, the parameter `g`,
-  calls `f(a)` whose argument is passed as a closure.  What the fragment takes from the host
-  library — `funcIndex2` behind `.name` and the texts of the two error messages `catch` can
-  receive — is a parameter (`IterMsg`): the theorems hold for every choice of it.
+  fragment of jq with closures, recursion, error handling and state-threading loops
+  (Model/MiniVM.lean): identity, constants, pipe, comma, `.[]`, `.name`, `empty`, `[q]`, `error`,
+  `try b`, `try b catch h`, `if c then a else b end`, `l // r`, `$x`, `src as $x | body`,
+  `reduce src as $x (init; upd)`, `foreach src as $x (init; upd; ext)`, one-filter-parameter
+  functions `def f(g): …` with arbitrary recursion, the parameter `g`, calls `f(a)` whose argument
+  is passed as a closure.  What the fragment takes from the host library — `funcIndex2` behind
+  `.name` and the texts of the two error messages `catch` can receive — is a parameter
+  (`IterMsg`): the theorems hold for every choice of it.
 
   `compile` emits the instructions compiler.go emits for these forms with all optimisations
   off and `step` is the `Next()` loop for the opcodes they use; both are tied to the code on
   every run by the `mini` stream (instruction-list equality and output equality on random
-  programs).  Proofs: Proofs/MiniVM{Yields,Compile,Refine,Prog}.lean.
+  programs).  Proofs: Proofs/MiniVM{Yields,Compile,Refine,RefineCall,RefineTry,RefineCond,
+  RefineVar,RefineLoop,RefineForeach,Prog}.lean — one lemma `cy_<construct>` per construct,
+  assembled by induction on the fuel.
 
+  Restrictions of the fragment (`Prog.WF` / `Q.Closed`): functions are top-level with exactly one
+  filter parameter, and a `$variable` is only used in the scope that binds it — not inside the
+  argument expression of a call made in that scope (variables of enclosing FRAMES read through
+  `outerindex` are not covered; the parameter closure is).
   Scope of the claim: the fragment, and the model's abstractions listed in Model/MiniVM.lean
-  (the persistent stacks as immutable lists — justified by Props/C01Stack.lean).  For the rest of the core grammar agreement with `Spec.eval` is observed
-  (stream `eval`), not proved; the framework has no full compiler/VM model against which the full
+  (the persistent stacks as immutable lists — justified by Props/C01Stack.lean; `expdepth`
+  ignored).  For the rest of the core grammar agreement with `Spec.eval` is observed (stream
+  `eval`), not proved; the framework has no full compiler/VM model against which the full
   statement (DESIGN §6 C01.3 `compile_refines_spec`) could be written down.
 -/
 import Gojq.Proofs.MiniVMProg
@@ -104,6 +112,27 @@ example : (match @runProg exMsg exTry 400 exInput2 with
     an error of its continuation -/
 example : (match @runProg exMsg exTryCont 400 exInput2 with
     | .finished [] (some (.plain (.user (.num (.int 1))))) => true | _ => false) = true := by decide +kernel
+
+/-- `reduce .[] as $x (0; [., $x])` on `[7, 8]` is `[[0,7],8]` — on the machine and in the reference
+    semantics -/
+example : (match @runProg exMsg exReduce 400 exInput2 with
+    | .finished [.arr [.arr [.num (.int 0), .num (.int 7)], .num (.int 8)]] none => true | _ => false) = true
+    ∧ (match @eval exMsg exReduce.defsFn 40 ⟨none, []⟩ ⟨.none, []⟩ exReduce.main exInput2 with
+    | ⟨[.arr [.arr [.num (.int 0), .num (.int 7)], .num (.int 8)]], .done⟩ => true | _ => false) = true := by
+  decide +kernel
+
+/-- `reduce .[] as $x (0; empty)` on `[7, 8]` is `0`: an empty update keeps the state (gojq; jq ≥ 1.6
+    gives `null`) -/
+example : (match @runProg exMsg exReduceEmpty 400 exInput2 with
+    | .finished [.num (.int 0)] none => true | _ => false) = true := by decide +kernel
+
+/-- `foreach .[] as $x (0; $x, [.]; [$x, .])` on `[7, 8]` is `[7,7], [7,[0]], [8,8], [8,[[0]]]`: both
+    outputs of the update are extracted, each computed from the state the element started with, and
+    the second element starts from the LAST output `[0]` of the first -/
+example : (match @runProg exMsg exForeach 600 exInput2 with
+    | .finished [.arr [.num (.int 7), .num (.int 7)], .arr [.num (.int 7), .arr [.num (.int 0)]],
+                 .arr [.num (.int 8), .num (.int 8)], .arr [.num (.int 8), .arr [.arr [.num (.int 0)]]]] none => true
+    | _ => false) = true := by decide +kernel
 
 /-- What the machine emits is determined: two complete runs from the same state agree. -/
 theorem run_deterministic {code c o1 e1 o2 e2} (r1 : Run code c o1 e1) (r2 : Run code c o2 e2) :
